@@ -65,6 +65,10 @@ CHECKS = {
    technique="TLA+ spec Nav.tla: idr.navigator and the reference DOM navigator as two transition systems over abstract XML documents; TLC checks a one-step bisimulation from every position for every small document; every (position, move) replayed on both real navigators; expression-level differential traces validated by TLC",
    text="TLC checks for every document with up to 4 (thorough 5) nodes and 0..2 attributes per element that all six move methods of the two navigator models agree from every position (document, element, text, attribute); each of these steps is replayed on idr's navigator and on xmlquery's, so both models are bound to code. Random expressions over the engine's axes, node tests, positional/string predicates and functions are evaluated from the document and inner nodes by idr.QueryIter and by the reference DOM and the result lists compared.",
    note="Trusted: TLC, antchfx/xpath itself (shared by both sides), label-based position identification. Reference quirks (text Value(), attribute NamespaceURL, DeclarationNode) are excluded from observations."),
+ "C20": dict(cat="model_checking", design="5/C20",
+   technique="TLA+ spec JSVM.tla (VM pool, set/run/delete/put protocol, node-JSON cache under node mutation, value-mapping table) model-checked by TLC over all interleavings of 2 goroutines; real calls observed through the verif VM hook and probe scripts are trace-validated by TLC (Trace_JSVM.tla); the mapping table is replayed",
+   text="TLC explores every interleaving of two goroutines making two calls each on two pooled VMs and checks that at run time a VM's user globals are exactly the running call's arguments, that a VM has a single owner and returns clean. The code is bound by recording get/run/put of every pooled VM (identity, argument names, globals actually present) during hundreds of sequential and concurrent calls with random argument sets plus probe-script observations, _node probes on recreated and on mutating nodes, and the value-mapping table with several scripts per kind; TLC validates every event. Known finding: stale _node on an ancestor.",
+   note="Trusted: TLC, goja. VM reuse is required to be observed (else exit 2). Scripts assigning globals are excluded."),
 }
 
 def main():
